@@ -185,7 +185,9 @@ func (vm *vm) run() error {
 				b, a := pop().(int), pop().(string)
 				push(strings.Repeat(a, b))
 
-			case instr == opEQ:
+			case instr == opEQ && !(isBlock(peek(1)) && isBlock(peek(0))):
+				// (two blocks are left to the error below: comparing them
+				// with == would panic, a Block holds a map)
 				b, a := pop(), pop()
 				push(a == b)
 
